@@ -451,6 +451,9 @@ def match_close(src, i, open_c, close_c):
     raise Bad('unbalanced %s' % open_c)
 
 
+PARAMS = {}     # (fn name, body start) -> parameter list text, filled by functions_of
+
+
 def functions_of(src):
     """[(name, is_method, body_start, body_end)] for every fn with a body"""
     out = []
@@ -490,6 +493,7 @@ def functions_of(src):
             continue
         end = match_close(src, brace, '{', '}')
         out.append((m.group(1), is_method, brace, end))
+        PARAMS[(m.group(1), brace)] = params
     return out
 
 
@@ -502,6 +506,19 @@ def emit_locks():
                 files.append(os.path.join(dp, f))
     fns = []      # (file, name, is_method)
     sites = []    # (caller, callee, under_cfg, under_upd)
+    # thin wrappers around thread::spawn (`fn spawn_detached<F>(f: F) { std::thread::spawn(f); }`): a closure handed to
+    # one of them runs on another thread exactly like one handed to thread::spawn itself
+    spawners = set()
+    for path in sorted(files):
+        src0 = blank_literals(strip_tests(open(path).read()))
+        for name, is_m, b0, b1 in functions_of(src0):
+            if is_m:
+                continue
+            pnames = re.findall(r'(?:^|,)\s*(?:mut\s+)?(\w+)\s*:', PARAMS.get((name, b0), ''))
+            body0 = src0[b0:b1 + 1]
+            for pn in pnames:
+                if re.search(r'\bspawn\s*\(\s*(?:move\s*\|\s*\|\s*)?%s\b' % re.escape(pn), body0):
+                    spawners.add(name)
     for path in sorted(files):
         rel = os.path.relpath(path, base)
         src = blank_literals(strip_tests(open(path).read()))
@@ -554,7 +571,7 @@ def emit_locks():
                     spans.append((po, pc, 'cfg'))
                 elif name2 == UPD_LOCKER and pre != '.':
                     spans.append((po, pc, 'upd'))
-                elif name2 == 'spawn':
+                elif name2 == 'spawn' or (name2 in spawners and pre != '.'):
                     spans.append((po, pc, 'spawn'))
                     callee = 'SPAWN'
                 calls.append((cm.start(2), callee))
@@ -625,7 +642,8 @@ def emit_consts():
             'Definition gen_request_fields : list string := [%s].\n'
             'Definition gen_request_sources : list (string * string) := [%s].\n'
             % (chan, cm.group(1), em.group(1), '; '.join('("%s", "%s")' % n for n in names),
-               '; '.join('"%s"' % f for f in fields), '; '.join('("%s", "%s")' % (a, b.strip().replace('"', "'")) for a, b in assigns)))
+               # (sorted: the order of the members of a JSON object, and so of the struct's fields, carries no meaning)
+               '; '.join('"%s"' % f for f in sorted(fields)), '; '.join('("%s", "%s")' % (a, b.strip().replace('"', "'")) for a, b in sorted(assigns))))
 
 
 def write_if_changed(path, text):
